@@ -232,7 +232,11 @@ CLAIMS["C14"] = dict(
          "infers a descriptor exactly when redeem / witness scripts and signing keys commit to the spent output (1260 "
          "combinations of output type x redeem script x witness script x keys); sighash_msg requests the digest flavour, "
          "script code, input index, amount and sighash type that BIP-341 / BIP-143 / legacy signing prescribe for the "
-         "spent output type (decision table over output type x scripts x leaf hash x sighash type x input position).",
+         "spent output type (decision table over output type x scripts x leaf hash x sighash type x input position); for "
+         "tr() descriptors the updater records exactly BIP-371's fields (internal key, Merkle root, one tap_scripts entry "
+         "per leaf whose control block folds to the root, per-key sorted duplicate-free leaf hashes with the key source) "
+         "over tree shapes and key placements with hashes as a free algebra; its key translator records (master "
+         "fingerprint, origin path + path) for the key derived along the definite key's own path.",
     note="Trusted: rust-bitcoin PSBT / lock-time types modelled by fields and consensus encodings; C13 (interpreter) and "
          "C01-C03 (satisfier); rustc THIR/MIR; evaluator. Real signatures / sighashes, extraction, operation-history "
          "independence beyond the per-call state tables, and taproot field population are not decided.",
